@@ -14,7 +14,9 @@
 #include "common/fw.hpp"
 #include "common/harness.hpp"
 
+#include <reproc/drain.h>
 #include <reproc/reproc.h>
+#include <reproc/run.h>
 
 #include <atomic>
 #include <csignal>
@@ -38,10 +40,11 @@ struct Cycle {
   size_t chunk;
   int code;
   bool pair;          // separate reader and writer threads
+  int read_mode;      // 0 reproc_read loop, 1 reproc_drain with a verifying sink, 2 reproc_poll + reproc_read
 };
 
 struct ThreadPlan {
-  int kind;           // 0 worker (cycles), 1 strerror hammer
+  int kind;           // 0 worker (cycles), 1 strerror hammer, 2 reproc_run_ex loop
   std::vector<Cycle> cycles;
   int iterations = 0;
 };
@@ -66,6 +69,29 @@ void wait_go()
 {
   g_barrier_count++;
   while (!g_go.load()) sched_yield();
+}
+
+struct DrainCtx {
+  std::atomic<uint64_t> *echoed;
+  std::string *problem;
+};
+
+int drain_sink(REPROC_STREAM stream, const uint8_t *buffer, size_t size, void *context)
+{
+  DrainCtx *c = (DrainCtx *) context;
+  if (stream != REPROC_STREAM_OUT) return 0;
+  // look at the chunk twice with a pause in between: the buffer handed to a
+  // sink must stay this child's while the sink runs
+  for (int pass = 0; pass < 2; pass++) {
+    for (size_t i = 0; i < size; i++)
+      if (buffer[i] != pup_pattern(0, c->echoed->load() + i)) {
+        if (c->problem->empty()) *c->problem = "echoed byte at offset " + std::to_string(c->echoed->load() + i) + " is not this child's own input";
+        return 0;
+      }
+    if (pass == 0) sched_yield();
+  }
+  *c->echoed += size;
+  return 0;
 }
 
 void run_cycle(int tid, int ci, const Cycle &cy, ThreadResult &res)
@@ -117,7 +143,22 @@ void run_cycle(int tid, int ci, const Cycle &cy, ThreadResult &res)
   std::string rproblem;
   auto reader = [&](bool until_eof) {
     std::vector<uint8_t> buf(65536);
+    if (cy.read_mode == 1) {
+      DrainCtx dc = { &echoed, &rproblem };
+      reproc_sink sink = { drain_sink, &dc };
+      int dr = reproc_drain(p, sink, REPROC_SINK_NULL);
+      if (dr != 0 && rproblem.empty()) rproblem = "reproc_drain returned " + std::to_string(dr);
+      return;
+    }
     for (;;) {
+      if (cy.read_mode == 2) {
+        reproc_event_source src = { p, REPROC_EVENT_OUT, 0 };
+        int pr = reproc_poll(&src, 1, 30000);
+        if (pr <= 0) {
+          rproblem = "poll returned " + std::to_string(pr);
+          break;
+        }
+      }
       int rr = reproc_read(p, REPROC_STREAM_OUT, buf.data(), buf.size());
       if (rr == REPROC_EPIPE) break;
       if (rr <= 0) {
@@ -164,7 +205,7 @@ void run_cycle(int tid, int ci, const Cycle &cy, ThreadResult &res)
   if (!wproblem.empty()) res.fail("io", who + wproblem);
   if (!rproblem.empty()) res.fail(rproblem.find("not this child") != std::string::npos ? "cross-talk" : "io", who + rproblem);
   if (echoed.load() != cy.bytes && res.problem.empty()) res.fail("cross-talk", who + "echo ended after " + std::to_string(echoed.load()) + " of " + std::to_string(cy.bytes) + " bytes");
-  int st = reproc_wait(p, 30000);
+  int st = (cy.code & 1) ? reproc_wait(p, 30000) : reproc_stop(p, (reproc_stop_actions){ { REPROC_STOP_WAIT, 30000 }, { REPROC_STOP_NOOP, 0 }, { REPROC_STOP_NOOP, 0 } });
   if (st != cy.code) res.fail("wrong-status", who + "the child was told to exit with " + std::to_string(cy.code) + ", wait returned " + std::to_string(st));
   std::map<std::string, long long> rep;
   if (pup.read_result(rep)) {
@@ -175,6 +216,58 @@ void run_cycle(int tid, int ci, const Cycle &cy, ThreadResult &res)
   if (st == REPROC_ETIMEDOUT) reproc_kill(p);
   reproc_destroy(p);
   res.cycles_done++;
+}
+
+struct RunCtx {
+  uint64_t got[3];
+  std::string problem;
+};
+
+int run_sink(REPROC_STREAM stream, const uint8_t *buffer, size_t size, void *context)
+{
+  RunCtx *c = (RunCtx *) context;
+  int s = stream == REPROC_STREAM_OUT ? 1 : stream == REPROC_STREAM_ERR ? 2 : 0;
+  if (s == 0) return 0;
+  for (size_t i = 0; i < size; i++)
+    if (buffer[i] != pup_pattern(s, c->got[s] + i)) {
+      if (c->problem.empty()) c->problem = std::string(s == 1 ? "stdout" : "stderr") + " byte at offset " + std::to_string(c->got[s] + i) + " is not this child's output";
+      return 0;
+    }
+  c->got[s] += size;
+  return 0;
+}
+
+// Whole start / drain / stop / destroy cycles through reproc_run_ex with an
+// autonomous child.
+void run_loop(int tid, int iterations, ThreadResult &res)
+{
+  for (int i = 0; i < iterations && res.problem.empty(); i++) {
+    std::string dir = fw::case_dir() + "/t" + std::to_string(tid) + "run" + std::to_string(i);
+    hz::Puppet pup(dir);
+    if (!pup.error().empty()) {
+      res.fail("harness", "puppet: " + pup.error());
+      return;
+    }
+    uint64_t out_n = 1000 + (uint64_t) ((tid * 7919 + i * 104729) % 90000), err_n = (uint64_t) ((tid * 31 + i * 17) % 9000);
+    int code = 1 + (tid * 13 + i) % 200;
+    std::string a2 = std::to_string(out_n), a3 = std::to_string(err_n), a6 = std::to_string(code);
+    const char *argv[] = { pup.exe().c_str(), "--auto", a2.c_str(), a3.c_str(), "4096", "0", a6.c_str(), "0", nullptr };
+    reproc_options opt;
+    memset(&opt, 0, sizeof(opt));
+    opt.redirect.in.type = REPROC_REDIRECT_DISCARD;
+    opt.redirect.err.type = REPROC_REDIRECT_PIPE;
+    opt.stop = { { REPROC_STOP_WAIT, 20000 }, { REPROC_STOP_KILL, 5000 }, { REPROC_STOP_NOOP, 0 } };
+    RunCtx ctx = { { 0, 0, 0 }, "" };
+    reproc_sink sink = { run_sink, &ctx };
+    vsmt_enter_start();
+    int r = reproc_run_ex(argv, opt, sink, sink);
+    vsmt_leave_start();
+    std::string who = "thread " + std::to_string(tid) + " run " + std::to_string(i) + ": ";
+    if (!ctx.problem.empty()) res.fail("cross-talk", who + ctx.problem);
+    else if (r != code) res.fail("wrong-status", who + "reproc_run_ex returned " + std::to_string(r) + ", the child exits with " + std::to_string(code));
+    else if (ctx.got[1] != out_n || ctx.got[2] != err_n) res.fail("cross-talk", who + "sinks received " + std::to_string(ctx.got[1]) + "/" + std::to_string(ctx.got[2]) + " bytes of " + std::to_string(out_n) + "/" + std::to_string(err_n));
+    res.cycles_done++;
+  }
 }
 
 void strerror_hammer(int iterations, ThreadResult &res)
@@ -206,13 +299,19 @@ CaseResult run_case(Tape &t, long)
   uint64_t seed = ((uint64_t) t.next() << 32) | t.next();
   std::vector<ThreadPlan> plan((size_t) nthreads);
   int code = 1;
-  int n_pairs = 0, n_hammers = 0;
+  int n_pairs = 0, n_hammers = 0, n_runs = 0;
   for (int i = 0; i < nthreads; i++) {
     ThreadPlan &tp = plan[(size_t) i];
     tp.kind = (!fds_only && t.chance(1, 6)) ? 1 : 0;
     if (tp.kind == 1) {
       tp.iterations = (int) t.range(200, 3000);
       n_hammers++;
+      continue;
+    }
+    if (!fds_only && t.chance(1, 5)) {
+      tp.kind = 2;
+      tp.iterations = (int) t.range(1, 4);
+      n_runs++;
       continue;
     }
     size_t nc = (size_t) t.range(1, 3);
@@ -225,6 +324,7 @@ CaseResult run_case(Tape &t, long)
       static const size_t chunks[] = { 1000, 4096, 65536 };
       cy.chunk = chunks[t.pick(3)];
       cy.code = code++ % 250;
+      cy.read_mode = (int) t.pick(3);
       if (cy.pair) n_pairs++;
       tp.cycles.push_back(cy);
     }
@@ -242,6 +342,7 @@ CaseResult run_case(Tape &t, long)
       wait_go();
       const ThreadPlan &tp = plan[(size_t) i];
       if (tp.kind == 1) strerror_hammer(tp.iterations, results[(size_t) i]);
+      else if (tp.kind == 2) run_loop(i, tp.iterations, results[(size_t) i]);
       else
         for (size_t c = 0; c < tp.cycles.size() && results[(size_t) i].problem.empty(); c++) run_cycle(i, (int) c, tp.cycles[c], results[(size_t) i]);
     });
@@ -268,7 +369,8 @@ CaseResult run_case(Tape &t, long)
   if (overlapped) res.cls("reader-writer-overlap");
   if (n_hammers) res.cls("strerror-threads");
   if (n_pairs) res.cls("reader-writer-pair");
-  res.describe = J().kv("threads", nthreads).kv("reader_writer_pairs", n_pairs).kv("strerror_threads", n_hammers).kv("yield_level", yield_level).kv("cycles_completed", cycles).kv("max_concurrent_starts", maxc).kv("fds_only", fds_only).str();
+  if (n_runs) res.cls("run-threads");
+  res.describe = J().kv("threads", nthreads).kv("reader_writer_pairs", n_pairs).kv("strerror_threads", n_hammers).kv("run_ex_threads", n_runs).kv("yield_level", yield_level).kv("cycles_completed", cycles).kv("max_concurrent_starts", maxc).kv("fds_only", fds_only).str();
   return res;
 }
 
